@@ -829,15 +829,24 @@ def run_stack(ctx, binfo):
     hd = os.path.join(ctx.build, "harness", "debug", "verif_harness")
     cb = os.path.join(ctx.build, "harness", "release", "conc")
     cd = os.path.join(ctx.build, "harness", "debug", "conc")
-    plan = [(cb, 30000), (cd, 25000)] if ctx.tier == "quick" else [(cb, 100000), (cd, 40000), (cb, 200000)]
+    # several history lengths: a recursive drop hidden behind a length window must not fall between two probes
+    import random as _r
+    rr = _r.Random(ctx.seed)
+    extra = [rr.randrange(2000, 20000) for _ in range(2)]
+    plan = [(cb, 30000), (cd, 25000), (cd, 3000), (cd, 12000)] + [(cd, x) for x in extra] if ctx.tier == "quick" else \
+        [(cb, 100000), (cd, 40000), (cb, 200000), (cd, 3000), (cd, 8000), (cd, 12000), (cd, 16000), (cd, 20000)] + [(cd, x) for x in extra]
     for binp, turns in plan:
         rc, out, dt = sh([binp, "stack", str(turns), str(ctx.seed), str(2 * 1024 * 1024)], timeout=3000)
         r["runs"].append({"profile": "release" if binp == cb else "debug", "turns": turns, "rc": rc, "out": out.strip()[-300:], "s": round(dt, 1)})
-    lens = ["1000", "100000", "1000000"] if ctx.tier == "quick" else ["1000", "100000", "1000000", "10000000"]
+    base = [1, 2, 3, 10, 100, 1000, 4096, 10000, 12000, 16383, 16384, 20000, 32768, 65536, 100000, 250000, 1000000]
+    base += [rr.randrange(2, 300000) for _ in range(8)]
+    if ctx.tier != "quick":
+        base += [10000000] + [rr.randrange(2, 3000000) for _ in range(16)]
+    lens = [str(x) for x in base]
     rc, out, dt = sh([hb, "dropprobe"] + lens, timeout=3000)
     r["probe_rc"] = rc
     r["probe"] = [dict(kv.split("=") for kv in l.split()[1:]) for l in out.splitlines() if l.startswith("PROBE")]
-    rc, out, dt = sh([hd, "dropprobe"] + lens[:2], timeout=3000)
+    rc, out, dt = sh([hd, "dropprobe"] + [x for x in lens if int(x) <= 100000], timeout=3000)
     r["probe_debug"] = [dict(kv.split("=") for kv in l.split()[1:]) for l in out.splitlines() if l.startswith("PROBE")]
     return r
 
